@@ -1,10 +1,13 @@
 mod common;
+mod concat;
 mod data;
 mod est;
 mod obs;
 mod out;
 mod props_mom;
 mod props_quant;
+mod props_struct;
+mod props_pair;
 mod props_hist;
 mod rng;
 
@@ -36,6 +39,13 @@ fn main() {
         "C06" => props_hist::c06(&mut out, tier, &mut rng),
         "C12" => props_hist::c12(&mut out, tier, &mut rng),
         "C13" => props_hist::c13(&mut out, tier, &mut rng),
+        "C08" => props_pair::c08(&mut out, tier, &mut rng),
+        "C09" => props_pair::c09(&mut out, tier, &mut rng),
+        "C14" => props_pair::c14(&mut out, tier, &mut rng),
+        "C11" => props_struct::c11(&mut out, tier, &mut rng),
+        "C16" => props_struct::c16(&mut out, tier, &mut rng),
+        "C17" => props_struct::c17(&mut out, tier, &mut rng),
+        "C20" => props_struct::c20(&mut out, tier, &mut rng),
         "C15" => props_quant::c15(&mut out, tier, &mut rng),
         _ => { eprintln!("unknown property {}", prop); std::process::exit(2); }
     }
